@@ -4,6 +4,7 @@
 package orch
 
 import (
+	"context"
 	"encoding/json"
 	"fmt"
 	"os"
@@ -47,15 +48,30 @@ func envInt(name string, def int) int {
 }
 
 func (c Config) run(prop string, extraEnv []string, args ...string) ([]byte, []byte, int) {
+	return c.runFor(0, prop, extraEnv, args...)
+}
+
+// runFor is run with a real-time bound: a worker still alive after it is killed and reported as
+// harness trouble (exit 2).
+func (c Config) runFor(limit time.Duration, prop string, extraEnv []string, args ...string) ([]byte, []byte, int) {
 	w := c.workerCmd(prop)
-	cmd := exec.Command(w[0], append(w[1:], args...)...)
+	ctx := context.Background()
+	if limit > 0 {
+		var cancel context.CancelFunc
+		ctx, cancel = context.WithTimeout(ctx, limit)
+		defer cancel()
+	}
+	cmd := exec.CommandContext(ctx, w[0], append(w[1:], args...)...)
 	cmd.Env = append(os.Environ(), extraEnv...)
 	var so, se strings.Builder
 	cmd.Stdout, cmd.Stderr = &so, &se
 	err := cmd.Run()
 	code := 0
 	if err != nil {
-		if ee, ok := err.(*exec.ExitError); ok {
+		if ctx.Err() != nil {
+			code = 2
+			se.WriteString(fmt.Sprintf("\nwatchdog: worker killed after %v", limit))
+		} else if ee, ok := err.(*exec.ExitError); ok {
 			code = ee.ExitCode()
 		} else {
 			code = 2
@@ -106,7 +122,7 @@ func Check(cfg Config, prop, tier string) int {
 		go func(w int) {
 			defer wg.Done()
 			out := filepath.Join(tmp, fmt.Sprintf("w%d.json", w))
-			_, se, code := cfg.run(prop, []string{"GOMAXPROCS=" + strconv.Itoa(envInt("VERIF_WORKER_PROCS", 1))},
+			_, se, code := cfg.runFor(time.Duration(3*desc.WallS+900)*time.Second, prop, []string{"GOMAXPROCS=" + strconv.Itoa(envInt("VERIF_WORKER_PROCS", 1))},
 				"worker", "--prop", prop, "--tier", tier, "--seed", strconv.FormatUint(seed, 10),
 				"--worker", strconv.Itoa(w), "--workers", strconv.Itoa(workers), "--deadline", strconv.FormatInt(deadline, 10),
 				"--known", cfg.known(), "--out", out)
